@@ -44,6 +44,13 @@ type FullLogger interface {
 	Set(ctx context.Context, fields map[string]string, keys ...tq.ContextKey) context.Context
 }
 
+// Release drops the retained entries.
+func (l *Logger) Release() {
+	l.mu.Lock()
+	l.entries = nil
+	l.mu.Unlock()
+}
+
 // NewLogger creates a recording logger.
 func NewLogger(keep bool) *Logger { return &Logger{Keep: keep, Retain: true} }
 
